@@ -149,6 +149,8 @@ def truth(ctx: Ctx, v, label="truth"):
         return v.e
     if isinstance(v, SymInt):
         return v.e != 0
+    if type(v).__name__ == "SymReal":
+        return v.e != 0
     if isinstance(v, SymStr):
         return z3.Length(v.e) > 0
     if isinstance(v, SymBytes):
